@@ -114,6 +114,17 @@ def paths_under(ff: FuncFacts, val: Dict[str, bool], start: Optional[Node] = Non
             a = n.ast
             if isinstance(a, ast.AnnAssign) and a.value is not None:
                 a = ast.Assign(targets=[a.target], value=a.value)
+            # ``found, value = (True, x)``: each name of the pair takes what stands at its position (a flag returned next to a value, after inlining)
+            if isinstance(a, ast.Assign) and len(a.targets) == 1 and isinstance(a.targets[0], (ast.Tuple, ast.List)) and isinstance(a.value, (ast.Tuple, ast.List)) \
+                    and len(a.targets[0].elts) == len(a.value.elts) and all(isinstance(x, ast.Name) for x in a.targets[0].elts):
+                for tn_, tv_ in zip(a.targets[0].elts, a.value.elts):
+                    if isinstance(tv_, ast.Constant):
+                        if tv_.value is None:
+                            v[f'{tn_.id} is None'] = True
+                            v[tn_.id] = False
+                        else:
+                            v[tn_.id] = bool(tv_.value)
+                            v[f'{tn_.id} is None'] = False
             if isinstance(a, ast.Assign) and len(a.targets) == 1:
                 t = norm(a.targets[0])
                 val_ = a.value
@@ -146,6 +157,8 @@ def paths_under(ff: FuncFacts, val: Dict[str, bool], start: Optional[Node] = Non
         if n.kind == 'test':
             test_e = FuncFacts.subst_flags(n.ast.test, ff.at(n))   # a local that stands for a predicate is tested as that predicate
             d = evaluate(ff, test_e, v)
+            if d is None:
+                d = _identity_on_path(path, test_e)
             if d is not None:
                 succs = [(t, l) for t, l in succs if l == ('true' if d else 'false')]
             else:
@@ -165,6 +178,48 @@ def paths_under(ff: FuncFacts, val: Dict[str, bool], start: Optional[Node] = Non
         for t, l in succs:
             stack.append((t, path, v, seen))
     return out
+
+
+def _identity_on_path(path: List[Node], test: ast.expr) -> Optional[bool]:
+    """``x is S`` / ``x is not S`` where, along THIS path, ``x`` was last bound to the very expression ``S`` (a module / class level marker: a plain name or attribute
+    chain) -- or to a freshly built object, which is never an already existing marker.  Decides the sentinel tests an inlined "value or NOTHING" helper leaves behind."""
+    neg = False
+    if isinstance(test, ast.UnaryOp) and isinstance(test.op, ast.Not):
+        test, neg = test.operand, True
+    if not (isinstance(test, ast.Compare) and len(test.ops) == 1 and isinstance(test.ops[0], (ast.Is, ast.IsNot))):
+        return None
+
+    def chain(e) -> bool:
+        return isinstance(e, ast.Name) or (isinstance(e, ast.Attribute) and chain(e.value))
+
+    def marker_text(e) -> str:
+        # (a class-level marker read through the instance, the class or ``cls``: one object)
+        t = norm(e)
+        for pre in ('self.', 'cls.', 'type(self).', 'self.__class__.'):
+            if t.startswith(pre):
+                return '<cls>.' + t[len(pre):]
+        return t
+    l = value_on_path(path, len(path) - 1, test.left)
+    r = value_on_path(path, len(path) - 1, test.comparators[0])
+    same: Optional[bool] = None
+    if chain(l) and chain(r) and marker_text(l) == marker_text(r) and not (isinstance(l, ast.Name) and l.id == norm(test.left)):
+        same = True
+    elif (chain(r) and isinstance(l, (ast.Dict, ast.List, ast.Set, ast.Tuple, ast.DictComp, ast.ListComp)) and (not isinstance(l, ast.Tuple) or l.elts)) or \
+            (chain(l) and isinstance(r, (ast.Dict, ast.List, ast.Set, ast.DictComp, ast.ListComp))):
+        same = False
+    if same is None:
+        # a PRIVATE marker (``_NOTHING_TO_FILL_IN``-style name: leading underscore, upper case) is an object nobody outside can hold: whatever else the local was bound to
+        # on this path -- a default, the result of calling it, a value the caller supplied -- is not it
+        import re as _re
+        for a_, b_ in ((l, r), (r, l)):
+            nm_ = norm(b_).split('.')[-1]
+            if chain(b_) and _re.fullmatch(r'_[A-Z][A-Z0-9_]*', nm_) and marker_text(b_) not in {marker_text(x) for x in ast.walk(a_) if isinstance(x, (ast.Name, ast.Attribute))} \
+                    and not (isinstance(a_, ast.Name) and a_.id == norm(test.left)):
+                same = False
+    if same is None:
+        return None
+    res = same if isinstance(test.ops[0], ast.Is) else not same
+    return (not res) if neg else res
 
 
 def valuations(leaves: Sequence[str], consistent: Optional[Callable[[Dict[str, bool]], bool]] = None) -> Iterator[Dict[str, bool]]:
